@@ -42,6 +42,11 @@ CLAIMED = {
         "For every DAG on up to 4 commits (5 thorough) and every pair of query commits, with commit timestamps as symbolic integers in [-2^40,2^40] (the code only compares/negates them, so all orderings incl. ties, backwards and negative clocks are covered): _find_lcas/find_merge_base return exactly the maximal common ancestors, can_fast_forward(a,b) <=> a is an ancestor of b, independent/find_octopus_base (thorough) are exact; Walker yields exactly the reachable set once each in date and topo order (never a parent before its child), and reachable(include)-reachable(exclude) under monotone clocks. Three genuine defects found by this check were repaired (fix: commits 77392fb, 0225633, 3a70501).",
         "Trusted: z3, ksym, CPython. Commits are real Commit objects with fixed ids in a dict-backed store (no serialisation); heapq runs natively on the proxies' comparison protocol.",
     ),
+    "C06": (
+        "bounded symbolic exploration of the real receive-pack handler (ksym): server state, command list and capabilities are solver-forked variables; real pkt-line stream and pack; report decoded by the client's parser",
+        "For every server state (two refs each absent/A/B), every list of 1-2 commands (old in {0,A,B}, new in {0,A,B, an object sent in the pack, an object nobody has}) and capability sets with/without atomic and side-band-64k, the real ReceivePackHandler.handle() on a bare disk repository over an in-memory pkt-line stream: a ref is reported ok exactly when it now holds the requested value and its previous value was the one the client named; stale commands leave the ref untouched and are reported ng; refs not named are untouched; every ref names a present object; atomic pushes report and apply all or nothing. Two genuine defects found by this check were repaired (ba16574, d306ccc). Racing pushers are covered at the compare-and-swap level by C08; hooks and the local push path are not covered.",
+        "Trusted: z3 (forking), ksym, dulwich's own ReportStatusParser/PktLineParser as decoders of the report (C19 checks them).",
+    ),
     "C07": (
         "bounded symbolic exploration of the real _GitFile under a rely/guarantee environment (ksym): positions and kinds of interfering actions and of an injected fault are solver-forked variables over a real directory",
         "One actor runs open-for-write/write/(close|abort|interrupted with-block) on the real _GitFile in a real directory while a protocol-abiding other locker may acquire/commit/abort before up to 2 of the actor's system calls and one system call may fail with EIO, all at symbolic positions: the actor never renames or removes a lock it does not own, owns the lock after a successful open, leaves complete old or complete new content visible to readers at every point, releases its lock on every ending, and a failed or aborted write leaves the old content. By assume/guarantee induction this gives mutual exclusion for any number of protocol-abiding writers within the bound. Two genuine defects found by this check were repaired (fix: 91eebc4, 8e3e18a). Callers of the protocol (index, refs, config writers) under fault injection are not covered by this check yet.",
